@@ -32,6 +32,7 @@ type gthread struct {
 	what      string
 	done      bool
 	started   bool
+	exited    chan struct{} // closed when the host goroutine has returned
 	name      string
 	stack     []string
 	callDepth int
@@ -70,9 +71,9 @@ func (in *Interp) spawnFunc(body func(), name string) {
 	in.mainThread()
 	th := &gthread{id: len(in.ts.threads), resume: make(chan bool, 1), name: name}
 	in.ts.threads = append(in.ts.threads, th)
-	in.ts.wg.Add(1)
+	th.exited = make(chan struct{})
 	go func() {
-		defer in.ts.wg.Done()
+		defer close(th.exited)
 		if run := <-th.resume; !run {
 			th.done = true
 			return
@@ -113,6 +114,8 @@ func (in *Interp) handoff(from, next *gthread) {
 	next.resume <- true
 	run := <-from.resume
 	if !run {
+		// killed at the end of the path: unwind this thread's interpreter frames on its own context
+		in.loadCtx(from)
 		panic(threadKill{})
 	}
 	// in.cur / context were set by whoever resumed us
@@ -220,11 +223,12 @@ func (in *Interp) killThreads() {
 	for _, t := range in.ts.threads[min(1, len(in.ts.threads)):] {
 		if !t.done {
 			// resume channels have capacity 1 and a thread consumes every message before the
-			// next one is sent, so this never blocks even if the thread has not parked yet
+			// next one is sent, so this never blocks even if the thread has not parked yet.
+			// Threads are unwound one at a time: they share the interpreter state.
 			t.resume <- false
 		}
+		<-t.exited
 	}
-	in.ts.wg.Wait()
 }
 
 // ---------- lock / condition / waitgroup state ----------
